@@ -1,7 +1,8 @@
 (* C05 - each emitted TypeScript type denotes the JSON shape serde produces.
    Statements, [exact], Examples and [Print Assumptions] only.
 
-   Model: Model/TypeParse.v (type_to_string printer tts, parse_type_structure), Model/Render.v and
+   Model: Model/TypeParse.v (type_to_string printer tts), Model/C05Parse.v (parse_type_structure after
+   the repair C05-2-3-top-level-commas: depth-aware splitting everywhere), Model/Render.v and
    Model/C05Emit.v (visitors, schema builder, add_types_prefix, the five sites in both modes).
    Specification: Spec/TsType.v (TypeScript type grammar), Spec/C05Spec.v (README table rshape,
    namespace qualification, reading of Zod schemas, domain), Spec/C05Known.v (defect classes). *)
@@ -9,6 +10,7 @@ From Coq Require Import String Ascii.
 From Coq Require Import List Arith Bool.
 Require Import TT.Model.Str TT.Model.TypeParse TT.Spec.TsType TT.Model.Render TT.Model.C05Emit.
 Require Import TT.Spec.C05Spec TT.Spec.C05Known.
+Require Import TT.Model.C05Parse TT.Proofs.C05ParseProofs.
 Require Import TT.Proofs.TypeParseProofs TT.Proofs.RenderProofs TT.Proofs.C05Proofs TT.Proofs.C05Sweep TT.Proofs.C05Witness TT.Proofs.C05Examples.
 Import ListNotations.
 Local Open Scope string_scope.
@@ -23,34 +25,31 @@ Definition C05_sound_full_statement : Prop :=
     exists text, emit_type s md [] t = Some text /\
                  observe (site_is_type s md) text = Some (expected s [] t).
 
-(* String -> TypeStructure: on the complement of the two parser classes parse_type_structure
-   returns the intended structure of every well-formed type, with the fuel the entry point uses. *)
+(* String -> TypeStructure: parse_type_structure returns the intended structure of EVERY well-formed
+   type (names without square brackets), with the fuel the entry point uses. No class premise: the two
+   parser classes (C05-2, C05-3) were repaired. *)
 Theorem C05_parse_faithful : forall t : rty,
-  wf t -> kf_result_ok_has_comma t = false -> kf_tuple_elem_has_comma t = false ->
-  parse_type_structure (tts t) = Some (sem t).
+  wf t -> nobr t -> parse_type_structure2 (tts t) = Some (sem t).
 Proof. exact parse_faithful. Qed.
 
 (* Parameter, field and channel sites in plain mode and the channel site in Zod mode, every type of
    the documented language at any nesting depth: the printed text, read by a TypeScript type parser
    with the real precedences, is exactly the README-table shape of the Rust type. *)
 Theorem C05_sound_plain : forall t : rty,
-  dom_b t = true ->
-  kf_result_ok_has_comma t = false -> kf_tuple_elem_has_comma t = false -> kf_union_under_seq (sem t) = false ->
+  dom_b t = true -> kf_union_under_seq (sem t) = false ->
   forall s md, plain_site s md = true ->
   exists text, emit_type s md [] t = Some text /\
                observe (site_is_type s md) text = Some (expected s [] t).
 Proof. intros t Hd. apply sound_plain; [constructor | exact Hd]. Qed.
 
-(* The premises of C05_sound_plain are exactly "outside every class" at those sites *)
+(* The premise of C05_sound_plain is exactly "outside every class" at those sites *)
 Theorem C05_plain_premises : forall s md t, plain_site s md = true ->
-  kf_C05 s md [] t = false ->
-  kf_result_ok_has_comma t = false /\ kf_tuple_elem_has_comma t = false /\ kf_union_under_seq (sem t) = false.
+  kf_C05 s md [] t = false -> kf_union_under_seq (sem t) = false.
 Proof.
   intros s md t Hs Hk. unfold kf_C05, all_classes in Hk. cbn [existsb in_class] in Hk.
   unfold plain_site in Hs. apply andb_true_iff in Hs as [Hty _]. rewrite Hty in Hk.
   rewrite msubst_nil in Hk. cbn [andb] in Hk.
-  apply orb_false_elim in Hk as [H1 Hk]. apply orb_false_elim in Hk as [H2 Hk]. apply orb_false_elim in Hk as [H3 _].
-  auto.
+  apply orb_false_elim in Hk as [H3 _]. exact H3.
 Qed.
 
 (* Compositional at any depth: what a reader sees for K<t> is K applied to what he sees for t *)
@@ -108,25 +107,20 @@ Theorem C05_sweep_domain_depth1_partial :
   forall t, In t (spines 1) -> dom_b t = true.
 Proof. exact (proj1 (forallb_forall dom_b (spines 1)) (proj1 sweep_domain_depth1)). Qed.
 
-(* ... and the site-specific classes are exact there. [exact_at s md t] reads: if t is outside the
-   two parser classes and inside one of the six site-specific classes, the specification rejects
-   the text the model prints. *)
+(* ... and the classes are exact there. [exact_at s md t] reads: if the case lies in a recorded
+   class, the specification rejects the text the model prints. *)
 Theorem C05_classes_exact_depth1_partial :
   forall t, In t (spines 1) -> forall s md, exact_at s md t = true.
 Proof. exact (sweep_spec exact_at (spines 1) sweep_exact_depth1). Qed.
 
-(* Each recorded class is a genuine failure of the faithful model: an in-domain type that lies in
+(* Each remaining class is a genuine failure of the faithful model: an in-domain type that lies in
    that class only, and whose printed text the specification rejects. *)
 Theorem C05_union_under_seq_refuted : refuted SField MNone w_union KUnionUnderSeq.
 Proof. exact union_under_seq_refuted. Qed.
-Theorem C05_result_ok_has_comma_refuted : refuted SField MNone w_result KResultComma.
-Proof. exact result_ok_has_comma_refuted. Qed.
-Theorem C05_tuple_elem_has_comma_refuted : refuted SField MNone w_tuple KTupleComma.
-Proof. exact tuple_elem_has_comma_refuted. Qed.
-Theorem C05_prefix_composite_refuted : refuted SReturn MNone w_pfx_composite KPrefixComposite.
-Proof. exact prefix_composite_refuted. Qed.
 Theorem C05_prefix_unqualified_refuted : refuted SReturn MNone w_pfx_unqualified KPrefixUnqualified.
 Proof. exact prefix_unqualified_refuted. Qed.
+Theorem C05_prefix_unqualified_seq_refuted : refuted SReturn MNone w_pfx_unqualified_seq KPrefixUnqualified.
+Proof. exact prefix_unqualified_seq_refuted. Qed.
 Theorem C05_zod_optional_refuted : refuted SField MZod w_zod_optional KZodOptional.
 Proof. exact zod_optional_refuted. Qed.
 Theorem C05_zod_set_refuted : refuted SField MZod w_zod_set KZodSet.
@@ -134,19 +128,32 @@ Proof. exact zod_set_refuted. Qed.
 Theorem C05_zod_result_refuted : refuted SField MZod w_zod_result KZodResult.
 Proof. exact zod_result_refuted. Qed.
 
+(* The repaired classes (C05-2, C05-3, C05-4): on the old witnesses, at the site where they failed,
+   the model (= the patched code) lies in no class and the specification accepts its text. *)
+Theorem C05_result_ok_has_comma_repaired : repaired SField MNone w_result "Record<string, User>".
+Proof. exact result_ok_has_comma_repaired. Qed.
+Theorem C05_tuple_elem_has_comma_repaired : repaired SField MNone w_tuple "[User, Record<string, number>]".
+Proof. exact tuple_elem_has_comma_repaired. Qed.
+Theorem C05_prefix_composite_repaired : repaired SReturn MNone w_pfx_composite "string[][]".
+Proof. exact prefix_composite_repaired. Qed.
+
 (* ---- the premises are satisfiable on non-trivial inputs ---- *)
 (* HashMap<String, Vec<(Option<User>, &str)>> : depth 4, six constructors, outside every class *)
 Definition ex_deep : rty :=
   RPath (L "HashMap") [RPath (L "String") [];
     RPath (L "Vec") [RTuple [RPath (L "Option") [RPath (L "User") []]; RRef (RPath (L "str") [])]]].
 Example C05_sound_plain_premises :
-  dom_b ex_deep = true /\ kf_result_ok_has_comma ex_deep = false /\ kf_tuple_elem_has_comma ex_deep = false /\
+  dom_b ex_deep = true /\
   kf_union_under_seq (sem ex_deep) = false /\ plain_site SField MNone = true /\
   emit_type SField MNone [] ex_deep = Some (L "Record<string, [User | null, string][]>").
 Proof. vm_compute. repeat split; reflexivity. Qed.
+(* Result<(HashMap<String, User>, bool), String>: inside both former parser classes *)
+Definition ex_commas : rty :=
+  RPath (L "Result") [RTuple [RPath (L "HashMap") [RPath (L "String") []; RPath (L "User") []]; RPath (L "bool") []];
+                      RPath (L "String") []].
 Example C05_parse_faithful_premises :
-  kf_result_ok_has_comma ex_deep = false /\ kf_tuple_elem_has_comma ex_deep = false /\
-  tts ex_deep = L "HashMap<String, Vec<(Option<User>, &str)>>".
+  dom_b ex_commas = true /\ tts ex_commas = L "Result<(HashMap<String, User>, bool), String>" /\
+  parse_type_structure2 (tts ex_commas) = Some (TRes (TTuple [TMap (TPrim (L "string")) (TCustom (L "User")); TPrim (L "boolean")])).
 Proof. vm_compute. repeat split; reflexivity. Qed.
 Example C05_compositional_premises :
   good [] (RPath (L "Option") [RPath (L "User") []]) /\ good [] (RPath (L "Vec") [RPath (L "User") []]) /\
@@ -174,10 +181,11 @@ Print Assumptions C05_sweep_sound_depth1_partial.
 Print Assumptions C05_sweep_domain_depth1_partial.
 Print Assumptions C05_classes_exact_depth1_partial.
 Print Assumptions C05_union_under_seq_refuted.
-Print Assumptions C05_result_ok_has_comma_refuted.
-Print Assumptions C05_tuple_elem_has_comma_refuted.
-Print Assumptions C05_prefix_composite_refuted.
 Print Assumptions C05_prefix_unqualified_refuted.
+Print Assumptions C05_prefix_unqualified_seq_refuted.
 Print Assumptions C05_zod_optional_refuted.
 Print Assumptions C05_zod_set_refuted.
 Print Assumptions C05_zod_result_refuted.
+Print Assumptions C05_result_ok_has_comma_repaired.
+Print Assumptions C05_tuple_elem_has_comma_repaired.
+Print Assumptions C05_prefix_composite_repaired.
